@@ -830,6 +830,12 @@ fn sessions_scenario(rng: &mut Rng) -> Vec<Session> {
     sc!("straight", true, [mov(Loc::Addr(0x3002), 0xF025, rng), simple("continue", rng), simple("registers", rng), simple("continue", rng), simple("step", rng), simple("exit", rng)]);
     sc!("halthigh", false, [simple("continue", rng), simple("registers", rng), simple("continue", rng), simple("step", rng), stepinto(Some(2), rng), simple("registers", rng)]);
 
+    // breakpoints the SOURCE put beyond the end of user space: listed, but not removable / addable / reachable by address, label or offset
+    sc!("straddle", true, [simple("breaklist", rng), with_loc("breakremove", Loc::Addr(0xFE00), rng), with_loc("breakremove", Loc::Addr(0xFE01), rng), simple("breaklist", rng),
+                           with_loc("breakremove", lab("hi", 0), rng), with_loc("breakremove", lab("last", 1), rng), with_loc("breakadd", Loc::Addr(0xFE02), rng),
+                           with_loc("breakadd", lab("hi2", 0), rng), with_loc("breakremove", Loc::Addr(0xFDFF), rng), with_loc("breakadd", Loc::Addr(0xFDFF), rng),
+                           with_loc("breakremove", Loc::Addr(0xFDFF), rng), simple("breaklist", rng), with_loc("goto", Loc::Addr(0xFE00), rng),
+                           mov(Loc::Addr(0xFE00), 5, rng), with_loc("print", Loc::Addr(0xFE00), rng), simple("exit", rng)]);
     // eval of label-taking instructions whose label lies at and beyond the reach of the field (CALL: 10 bits, JSR: 11, the rest: 9)
     // (only forms that must be REFUSED are evaluated for CALL/JSR: what an accepted one writes as link value is left open by C15)
     sc!("fargap", true, [eval(&pc_lab("call", 0, "far600"), true, None, rng), simple("registers", rng), eval(&pc_lab("call", 0, "far1100"), true, None, rng), simple("registers", rng),
